@@ -16,7 +16,10 @@ consult a fault plan:
 """
 import errno
 import io
+import os
 import posixpath
+
+os_strerror = os.strerror
 
 
 class SimCrash(BaseException):
@@ -72,7 +75,9 @@ class _Handle(object):
         if plan and k in plan:
             fs.fired['eio'] = fs.fired.get('eio', 0) + 1
             fs._rec(self, 'EIO', self.pos, n)
-            raise OSError(errno.EIO, 'Input/output error (simulated)', self.path)
+            # OSError(errno, ...) yields the matching subclass (InterruptedError, TimeoutError, ...)
+            code = fs.eio_errno
+            raise OSError(code, os_strerror(code) + ' (simulated)', self.path)
 
     # -- reading ---------------------------------------------------------
     def read(self, n=-1):
@@ -211,6 +216,7 @@ class SimFS(object):
         self.written = {}
         self.write_calls = 0
         self.eio_plan = {}       # path -> set of nth-read indices
+        self.eio_errno = errno.EIO
         self.enospc_plan = {}    # path -> byte capacity
         self.crash_at = None     # nth write call (global) at which to crash
         self.crash_keep = None
